@@ -86,6 +86,19 @@ def run(ctx, rep):
                       witness={"method_oneway": ow, "return_type": cname}, sample={"cell": key, "diagnostics": repr(got)})
     rep.floor("T2", "return-type cells", n, 34)
 
+    # ---- T2b: every method gets the return-type rule: the per-method closure of check_methods calls check_method on every path
+    found = False
+    for c in facts.closures_of("validation::check_methods"):
+        f = facts.fns[c]
+        pdc = cfg.post_dominators(f["body"])
+        s_ = cfg.call_sites(f["body"], lambda x: x == "validation::check_method")
+        if s_ and any(b in pdc.get(0, set()) for b, _ in s_):
+            found = True
+    rep.check(found, "T2", "C10|T2|every-method-checked", cfg.where(facts.fn("validation::check_methods")),
+              "check_method must run for every method, i.e. on every path through the per-method closure of check_methods (before any early return such as the duplicate-name one)",
+              witness="oneway int f(); declared after another method named f: no return-type Error" if not found else None)
+    import c15
+    c15.simple_walker(ctx, rep, "C10", "traverse::walk_methods", "walk_methods")
     # ---- T3
     order_rule(facts, rep, "C10", ["validation::set_up_oneway_interface", "validation::check_methods"])
     # guard: the call of set_up_oneway_interface is control-dependent only on `ast.item` being Item::Interface
@@ -118,4 +131,7 @@ def run(ctx, rep):
                   "set_up_oneway_interface is guarded by exactly one test: the item is an interface (found switches on %r)" % (descr,),
                   sample={"guards": repr(descr)})
     rep.assumptions += ["TB-1 rustc MIR", "TB-4 tabulator", "iterator chain modelled for one generic element: iter_mut/filter_map/for_each visit every element once in order (std)"]
-    rep.not_decided.append("keyword presence and range wiring (Interface.oneway, Method.oneway, oneway_range) are decided by the grammar wiring rule (C02/C04)")
+    import common_g
+    n, _ = common_g.emit(ctx, rep, "C10", {"oneway"}, "T4")
+    rep.floor("T4", "oneway wiring obligations (flag = presence of the keyword, oneway_range spans it)", n, 3)
+    rep.rule("T4", "A9: Interface.oneway / Method.oneway are the presence of the ONEWAY keyword and oneway_range spans it")
